@@ -25,7 +25,8 @@ TRUSTED_BASE = [
     'tools/*.py, harness/ (generators, canonicaliser, oracles) are trusted test code',
 ]
 
-RS2LEAN_SPECS = [('words.json', 'WordsSrcGen.lean', 'SrcWords'), ('rdh.json', 'RdhSrcGen.lean', 'SrcRdh')]
+RS2LEAN_SPECS = [('words.json', 'WordsSrcGen.lean', 'SrcWords'), ('rdh.json', 'RdhSrcGen.lean', 'SrcRdh'),
+                 ('payload.json', 'PayloadSrcGen.lean', 'SrcPayload')]
 
 os.makedirs(CACHE, exist_ok=True)
 
